@@ -98,14 +98,21 @@ class GrammarSemantics(ModelBuilderSemantics):
         # )
         # return ast
 
+    @classmethod
+    def _eval_escapes(cls, value: str) -> str:
+        try:
+            return eval_escapes(value)
+        except UnicodeDecodeError as e:
+            raise FailedSemantics(f'string escape error: {e!s}') from e
+
     def string(self, ast):
         value = ast
-        return eval_escapes(value)
+        return self._eval_escapes(value)
 
     def multiline_string(self, ast):
         value = ast
         value = trim(value.strip()).rstrip()
-        return eval_escapes(value)
+        return self._eval_escapes(value)
 
     def hex(self, ast):
         return int(ast, 16)
